@@ -885,6 +885,17 @@ fn vp_native_redirect_chains_body() {
             assert_eq!(seen.len(), 2, "redirect with a broken body ({}): requests {:?}", kind, seen);
         }
     }
+    // a Location with a scheme that is not http(s) is unusable whatever proxies are configured: one request, then an error
+    for loc in ["ftp://files.test/pub/readme.txt", "ws://files.test:8080/socket", "gopher://files.test:70/1", "ftp://127.0.0.1:21/x"] {
+        let plog = Arc::new(Mutex::new(Vec::new()));
+        let l2 = loc.to_string();
+        let proxy = serve_early(plog.clone(), move |line: &str, _p: u16| if line.contains("/start") { resp(302, Some(&l2), "") } else { resp(200, None, "fetched through the proxy") });
+        let mut ps = crate::Session::new();
+        ps.proxy_settings(crate::ProxySettings::builder().http_proxy(Url::parse(&format!("http://127.0.0.1:{}", proxy)).unwrap()).https_proxy(Url::parse(&format!("http://127.0.0.1:{}", proxy)).unwrap()).build());
+        let r = ps.get("http://far.test/start").send(); cases += 1; crate::verif_native_watchdog::progress();
+        let seen: Vec<String> = plog.lock().unwrap().iter().map(|x: &Seen| x.first_line.clone()).collect();
+        assert!(r.is_err() && seen.len() == 1, "a redirect to {} with a proxy configured: {:?}, requests seen by the proxy {:?}", loc, r.map(|r| (r.status().as_u16(), r.url().to_string())).map_err(|e| e.to_string()), seen);
+    }
     // a Location whose path and query carry raw UTF-8 octets (not percent-encoded): the next hop asks for exactly those octets,
     // percent-encoded one by one, and the response reports that URL
     {
@@ -1247,6 +1258,19 @@ fn vp_native_redirect_across_no_proxy_boundary_body() {
         let seen: Vec<String> = alog.lock().unwrap().iter().map(|x: &Seen| x.first_line.clone()).collect();
         assert!(seen.len() == 1 && seen[0].contains("/start"), "requests for the host {:?} arrived at the loopback listener on port {}: {:?} (results: {:?} / {:?})", name, a, seen, r1.map(|r| r.status().as_u16()).map_err(|e| e.to_string()), r2.map(|r| r.status().as_u16()).map_err(|e| e.to_string()));
     }
+    // one host name, two ports: the replayed request arrives at the listener its hop's URL names
+    for status in [307u16, 308, 302] {
+        let (alog, blog) = (Arc::new(Mutex::new(Vec::new())), Arc::new(Mutex::new(Vec::new())));
+        let b = serve_early(blog.clone(), |_, _| resp(200, None, "landed"));
+        let a = serve_early(alog.clone(), move |_, _| resp(status, Some(&format!("http://localhost:{}/landing?x=1", b)), ""));
+        let s = { let mut s = crate::Session::new(); s.proxy_settings(crate::ProxySettings::builder().build()); s };
+        let r = s.post(format!("http://localhost:{}/start", a)).header("X-Token", "t").text("replayed body").send();
+        name_cases += 1; crate::verif_native_watchdog::progress();
+        let (sa, sb): (Vec<Seen>, Vec<Seen>) = (alog.lock().unwrap().clone(), blog.lock().unwrap().clone());
+        assert!(sa.len() == 1 && sb.len() == 1, "a {} from localhost:{} to localhost:{}: the first listener saw {:?}, the second {:?} ({:?})", status, a, b, sa.iter().map(|x| x.first_line.clone()).collect::<Vec<_>>(), sb.iter().map(|x| x.first_line.clone()).collect::<Vec<_>>(), r.map(|r| r.status().as_u16()).map_err(|e| e.to_string()));
+        assert_eq!(sb[0].host.as_deref(), Some(&format!("localhost:{}", b)[..]));
+        if status != 302 { assert!(sb[0].first_line.starts_with("POST /landing?x=1 ") && sb[0].body == b"replayed body", "the replay on localhost:{}: {:?} with a body of {} bytes", b, sb[0].first_line, sb[0].body.len()); }
+    }
     // the proxy chosen for a hop cannot be reached: whatever the exchange does then, a server that is not that proxy never receives
     // the request meant for the proxy (absolute-form target, the proxy's Host); a request that does reach the hop's own host names it
     let mut cases = 2u64 + ip_cases + name_cases;
@@ -1535,6 +1559,8 @@ fn vp_native_body_delivered_as_it_arrives_body() {
     // responses without a body: sending returns at the blank line and the empty body is read without waiting, the server holding the connection open
     for (kind, head) in [("Content-Length: 0", "HTTP/1.1 200 OK\r\nContent-Length: 0\r\n\r\n"), ("204", "HTTP/1.1 204 No Content\r\n\r\n"), ("304", "HTTP/1.1 304 Not Modified\r\nContent-Length: 10\r\n\r\n"),
                          // interim heads: the head that has arrived is the response that is returned; nothing waits for a later one
+                         // field lines the parser drops (names that are not tokens) are still lines of the head: it ends at the blank line
+                         ("dropped field", "HTTP/1.1 200 OK\r\nX Powered By: demo\r\nContent-Length: 0\r\n\r\n"), ("dropped field last", "HTTP/1.1 204 No Content\r\nServer: x\r\n(comment): y\r\n\r\n"), ("dropped fields only", "HTTP/1.1 304 Not Modified\r\n: a\r\na@b: c\r\n\r\n"),
                          ("100", "HTTP/1.1 100 Continue\r\n\r\n"), ("102", "HTTP/1.1 102 Processing\r\n\r\n"), ("103", "HTTP/1.1 103 Early Hints\r\nLink: </s.css>; rel=preload\r\n\r\n"), ("199 with a length", "HTTP/1.1 199 X\r\nContent-Length: 10\r\n\r\n"),
                          ("HEAD", "HTTP/1.1 200 OK\r\nContent-Length: 10\r\n\r\n"), ("HEAD chunked", "HTTP/1.1 200 OK\r\nTransfer-Encoding: chunked\r\n\r\n")] {
         let l = TcpListener::bind("127.0.0.1:0").unwrap();
